@@ -246,84 +246,100 @@ Definition ork (r1 r2 : option bool) (k : option bool) : option bool :=
   | Some false => match r2 with None => None | Some true => k | Some false => Some false end
   end.
 
-(** ** evaluateTokens: the loop over [tokens[i:]]; [rec] is the recursive call
-    of evaluateTokens on the one- or two-token slices built by NOT / OR *)
+(** ** searchKeyLength (fix "NOT and OR take complete search keys"): the number of
+    tokens of the search key that starts the list; [fuel] bounds the recursion,
+    every call is on a strict suffix, so [S (length toks)] is always enough *)
+Fixpoint key_len (fuel : nat) (toks : list str) : nat :=
+  match fuel with
+  | O => 1
+  | S f =>
+      match toks with
+      | [] => 1
+      | t :: rest =>
+          match kw_of (to_upper t) with
+          | Some KwNOT => 1 + key_len f rest
+          | Some KwOR => let n1 := key_len f rest in 1 + n1 + key_len f (skipn n1 rest)
+          | Some KwHEADER => 3
+          | _ => if requires_argument (to_upper t) then 2 else 1
+          end
+      end
+  end.
+Definition search_key_length (toks : list str) : nat := key_len (S (length toks)) toks.
+
+(** [len(token) >= 2 && token[0] == '(' && token[len(token)-1] == ')'] *)
+Definition is_group (token : str) : bool :=
+  match token with
+  | c :: r => match rev r with
+              | c2 :: _ => Ascii.eqb c lpar && Ascii.eqb c2 rpar
+              | [] => false
+              end
+  | [] => false
+  end.
+(** [tokens[i][1 : len(tokens[i])-1]] *)
+Definition group_inner (t : str) : str := match t with _ :: r => removelast r | [] => [] end.
+
+(** list: [if !evaluateTokens(inner) { return false }] *)
+Definition seqk (r : option bool) (k : option bool) : option bool :=
+  match r with None => None | Some true => k | Some false => Some false end.
+
+(** ** evaluateTokens: the loop over [tokens[i:]].  The Go function recurses on
+    the slices of NOT / OR and on the re-tokenised contents of a parenthesised
+    list; [fuel] bounds loop iterations plus nesting and [None] is "out of
+    fuel" (the code has no run-time failure).  [eval_tokens] supplies a fuel
+    that is enough for every input (Proof/SearchTotal.v). *)
 Section Eval.
 Variable T : text_ops.
-Variable rec : list str -> option bool.
 Variable m : msg.
 
-Fixpoint eval_loop (tokens : list str) {struct tokens} : option bool :=
+Fixpoint eval_loop (fuel : nat) (tokens : list str) {struct fuel} : option bool :=
+  match fuel with
+  | O => None
+  | S fu =>
   match tokens with
   | [] => Some true
   | t :: rest =>
       let token := to_upper t in
-      if is_sequence_set token then andk (matches_sequence_set (m_seq m) token) (eval_loop rest)
+      (* parenthesised list: one token; every key of the list must match *)
+      if is_group token then seqk (eval_loop fu (parse_search_tokens (group_inner t))) (eval_loop fu rest)
+      else if is_sequence_set token then andk (matches_sequence_set (m_seq m) token) (eval_loop fu rest)
       else
         match kw_of token with
-        | Some KwALL => eval_loop rest
-        | Some KwANSWERED => andk (has_flag_go (m_flags m) flag_answered) (eval_loop rest)
-        | Some KwDELETED => andk (has_flag_go (m_flags m) flag_deleted) (eval_loop rest)
-        | Some KwDRAFT => andk (has_flag_go (m_flags m) flag_draft) (eval_loop rest)
-        | Some KwFLAGGED => andk (has_flag_go (m_flags m) flag_flagged) (eval_loop rest)
-        | Some KwNEW => andk (has_flag_go (m_flags m) flag_recent && negb (has_flag_go (m_flags m) flag_seen)) (eval_loop rest)
-        | Some KwOLD => andk (negb (has_flag_go (m_flags m) flag_recent)) (eval_loop rest)
-        | Some KwRECENT => andk (has_flag_go (m_flags m) flag_recent) (eval_loop rest)
-        | Some KwSEEN => andk (has_flag_go (m_flags m) flag_seen) (eval_loop rest)
-        | Some KwUNANSWERED => andk (negb (has_flag_go (m_flags m) flag_answered)) (eval_loop rest)
-        | Some KwUNDELETED => andk (negb (has_flag_go (m_flags m) flag_deleted)) (eval_loop rest)
-        | Some KwUNDRAFT => andk (negb (has_flag_go (m_flags m) flag_draft)) (eval_loop rest)
-        | Some KwUNFLAGGED => andk (negb (has_flag_go (m_flags m) flag_flagged)) (eval_loop rest)
-        | Some KwUNSEEN => andk (negb (has_flag_go (m_flags m) flag_seen)) (eval_loop rest)
+        | Some KwALL => eval_loop fu rest
+        | Some KwANSWERED => andk (has_flag_go (m_flags m) flag_answered) (eval_loop fu rest)
+        | Some KwDELETED => andk (has_flag_go (m_flags m) flag_deleted) (eval_loop fu rest)
+        | Some KwDRAFT => andk (has_flag_go (m_flags m) flag_draft) (eval_loop fu rest)
+        | Some KwFLAGGED => andk (has_flag_go (m_flags m) flag_flagged) (eval_loop fu rest)
+        | Some KwNEW => andk (has_flag_go (m_flags m) flag_recent && negb (has_flag_go (m_flags m) flag_seen)) (eval_loop fu rest)
+        | Some KwOLD => andk (negb (has_flag_go (m_flags m) flag_recent)) (eval_loop fu rest)
+        | Some KwRECENT => andk (has_flag_go (m_flags m) flag_recent) (eval_loop fu rest)
+        | Some KwSEEN => andk (has_flag_go (m_flags m) flag_seen) (eval_loop fu rest)
+        | Some KwUNANSWERED => andk (negb (has_flag_go (m_flags m) flag_answered)) (eval_loop fu rest)
+        | Some KwUNDELETED => andk (negb (has_flag_go (m_flags m) flag_deleted)) (eval_loop fu rest)
+        | Some KwUNDRAFT => andk (negb (has_flag_go (m_flags m) flag_draft)) (eval_loop fu rest)
+        | Some KwUNFLAGGED => andk (negb (has_flag_go (m_flags m) flag_flagged)) (eval_loop fu rest)
+        | Some KwUNSEEN => andk (negb (has_flag_go (m_flags m) flag_seen)) (eval_loop fu rest)
         | Some KwNOT =>
-            match rest with
-            | [] => Some false                                  (* i+1 >= len(tokens) *)
-            | k :: rest1 =>
-                if requires_argument (to_upper k) then
-                  match rest1 with
-                  | a :: rest2 => notk (rec [k; a]) (eval_loop rest2)
-                  | [] => notk (rec [k]) (eval_loop rest1)
-                  end
-                else notk (rec [k]) (eval_loop rest1)
-            end
+            (* NOT <search-key>: the complete key *)
+            let n := search_key_length rest in
+            if (length rest <? n)%nat then Some false
+            else notk (eval_loop fu (firstn n rest)) (eval_loop fu (skipn n rest))
         | Some KwOR =>
-            match rest with
-            | k1 :: rest1 =>
-                match rest1 with
-                | x :: rest2 =>                                 (* i+2 < len(tokens) *)
-                    if requires_argument (to_upper k1) then
-                      (* key1 = [k1; x]; then i++; fix bb43d4f: [if i >= len(tokens) { return false }] *)
-                      match rest2 with
-                      | [] => Some false                        (* the second key is missing *)
-                      | k2 :: rest3 =>
-                          if requires_argument (to_upper k2) then
-                            match rest3 with
-                            | a2 :: rest4 => ork (rec [k1; x]) (rec [k2; a2]) (eval_loop rest4)
-                            | [] => ork (rec [k1; x]) (rec [k2]) (eval_loop rest3)
-                            end
-                          else ork (rec [k1; x]) (rec [k2]) (eval_loop rest3)
-                      end
-                    else
-                      if requires_argument (to_upper x) then
-                        match rest2 with
-                        | a2 :: rest3 => ork (rec [k1]) (rec [x; a2]) (eval_loop rest3)
-                        | [] => ork (rec [k1]) (rec [x]) (eval_loop rest2)
-                        end
-                      else ork (rec [k1]) (rec [x]) (eval_loop rest2)
-                | [] => Some false
-                end
-            | [] => Some false
-            end
+            (* OR <search-key1> <search-key2>: two complete keys *)
+            let n1 := search_key_length rest in
+            let n2 := search_key_length (skipn n1 rest) in
+            if (length rest <? n1 + n2)%nat then Some false
+            else ork (eval_loop fu (firstn n1 rest)) (eval_loop fu (firstn n2 (skipn n1 rest)))
+                     (eval_loop fu (skipn (n1 + n2) rest))
         | Some ((KwBCC | KwCC | KwFROM | KwSUBJECT | KwTO | KwBODY | KwTEXT) as k) =>
             match rest with
             | [] => Some false
-            | a :: rest1 => andk (t_header_or_body T m k (unquote a)) (eval_loop rest1)
+            | a :: rest1 => andk (t_header_or_body T m k (unquote a)) (eval_loop fu rest1)
             end
         | Some KwHEADER =>
             match rest with
             | f :: rest1 =>
                 match rest1 with
-                | s :: rest2 => andk (t_header T m (unquote f) (unquote s)) (eval_loop rest2)
+                | s :: rest2 => andk (t_header T m (unquote f) (unquote s)) (eval_loop fu rest2)
                 | [] => Some false
                 end
             | [] => Some false
@@ -331,63 +347,58 @@ Fixpoint eval_loop (tokens : list str) {struct tokens} : option bool :=
         | Some KwKEYWORD =>
             match rest with
             | [] => Some false
-            | a :: rest1 => andk (has_flag_go (m_flags m) (unquote a)) (eval_loop rest1)
+            | a :: rest1 => andk (has_flag_go (m_flags m) (unquote a)) (eval_loop fu rest1)
             end
         | Some KwUNKEYWORD =>
             match rest with
             | [] => Some false
-            | a :: rest1 => andk (negb (has_flag_go (m_flags m) (unquote a))) (eval_loop rest1)
+            | a :: rest1 => andk (negb (has_flag_go (m_flags m) (unquote a))) (eval_loop fu rest1)
             end
         | Some KwLARGER =>
             match rest with
             | [] => Some false
             | a :: rest1 =>
-                andk (match atoi a with Some size => t_size T m size true | None => false end) (eval_loop rest1)
+                andk (match atoi a with Some size => t_size T m size true | None => false end) (eval_loop fu rest1)
             end
         | Some KwSMALLER =>
             match rest with
             | [] => Some false
             | a :: rest1 =>
-                andk (match atoi a with Some size => t_size T m size false | None => false end) (eval_loop rest1)
+                andk (match atoi a with Some size => t_size T m size false | None => false end) (eval_loop fu rest1)
             end
         | Some KwUID =>
             match rest with
             | [] => Some false
-            | a :: rest1 => andk (matches_sequence_set (m_uid m) a) (eval_loop rest1)
+            | a :: rest1 => andk (matches_sequence_set (m_uid m) a) (eval_loop fu rest1)
             end
         | Some KwBEFORE =>
             match rest with [] => Some false
-            | a :: rest1 => andk (matches_date (m_idate m) (unquote a) CBefore) (eval_loop rest1) end
+            | a :: rest1 => andk (matches_date (m_idate m) (unquote a) CBefore) (eval_loop fu rest1) end
         | Some KwON =>
             match rest with [] => Some false
-            | a :: rest1 => andk (matches_date (m_idate m) (unquote a) COn) (eval_loop rest1) end
+            | a :: rest1 => andk (matches_date (m_idate m) (unquote a) COn) (eval_loop fu rest1) end
         | Some KwSINCE =>
             match rest with [] => Some false
-            | a :: rest1 => andk (matches_date (m_idate m) (unquote a) CSince) (eval_loop rest1) end
+            | a :: rest1 => andk (matches_date (m_idate m) (unquote a) CSince) (eval_loop fu rest1) end
         | Some KwSENTBEFORE =>
             match rest with [] => Some false
-            | a :: rest1 => andk (t_sent_date T m (unquote a) CBefore) (eval_loop rest1) end
+            | a :: rest1 => andk (t_sent_date T m (unquote a) CBefore) (eval_loop fu rest1) end
         | Some KwSENTON =>
             match rest with [] => Some false
-            | a :: rest1 => andk (t_sent_date T m (unquote a) COn) (eval_loop rest1) end
+            | a :: rest1 => andk (t_sent_date T m (unquote a) COn) (eval_loop fu rest1) end
         | Some KwSENTSINCE =>
             match rest with [] => Some false
-            | a :: rest1 => andk (t_sent_date T m (unquote a) CSince) (eval_loop rest1) end
-        | None => eval_loop rest                                (* default: unknown key, i++ *)
+            | a :: rest1 => andk (t_sent_date T m (unquote a) CSince) (eval_loop fu rest1) end
+        | None => eval_loop fu rest                                (* default: unknown key, i++ *)
         end
+  end
   end.
 End Eval.
 
-(** recursion depth of evaluateTokens: the slices NOT / OR build have at most
-    two tokens, on which neither NOT (needs a following token but takes no
-    argument) nor OR (needs three tokens) recurses again; depth 3 is never
-    exhausted (Proof/SearchEval.v, [eval_depth_enough]) *)
-Fixpoint eval_tokens_d (d : nat) (T : text_ops) (m : msg) (tokens : list str) : option bool :=
-  match d with
-  | O => None
-  | S d' => eval_loop T (eval_tokens_d d' T m) m tokens
-  end.
-Definition eval_tokens := eval_tokens_d 3.
+(** every token costs its length plus one: bounds iterations and nesting *)
+Definition tokens_measure (toks : list str) : nat := fold_right (fun t n => S (length t) + n)%nat O toks.
+Definition eval_tokens (T : text_ops) (m : msg) (tokens : list str) : option bool :=
+  eval_loop T m (S (tokens_measure tokens)) tokens.
 
 (** matchesSearchCriteria *)
 Definition matches_search_criteria (T : text_ops) (m : msg) (tokens : list str) : option bool :=
